@@ -228,3 +228,7 @@ impl<FB: FrameBuffer> ZXScreen<FB> {
         &self.buffer
     }
 }
+
+#[cfg(kani)]
+#[path = "/verif/hooks/core/screen.rs"]
+mod verif_hooks;
